@@ -395,16 +395,101 @@ func runC07(prop string, res *Result, pool *DrvPool, r *Rng) {
 	res.Rule = "(a) every sequence of line kinds up to a bounded length from the initial state, scanned line by line on the implementation and the model (pruned after done/error); (b) streams of 1..4 generated dumps/race reports separated by junk, scanned with the documented resume protocol: one snapshot per dump, each equal to scanning that dump alone and to its description, forwarded text = the junk, no position scanned twice or skipped; non-trivial = reaches a non-looking state; distinct by hash"
 	runLowStreams(res, pool, r.Fork())
 	k := countN(res.Tier, 4, 5)
-	runKindSequences(res, pool, k, func(seq []string, steps []scanStep) {
+	specKind := map[string]string{"header": "header", "header2": "header", "func": "func", "file": "file", "created": "created", "blank": "blank", "crlfblank": "blank",
+		"elided": "elided", "unavail": "unavail", "sep": "sep", "warn": "warn", "raceop": "raceOp", "raceprev": "racePrev", "racegor": "raceGor", "racegor7": "raceGor",
+		"racefunc": "func", "racefile": "file", "junk": "other"}
+	var visit func(seq []string, steps []scanStep)
+	visit = func(seq []string, steps []scanStep) {
 		if len(steps) == 0 {
 			return
+		}
+		// direct oracle: the documented grammar's reference automaton predicts how
+		// many lines of a canonical sequence starting a dump are consumed
+		if seq[0] == "header" || seq[0] == "header2" || seq[0] == "sep" {
+			kinds := make([]string, 0, len(seq))
+			canonical := true
+			declared := map[string]bool{}
+			for _, n := range seq {
+				sk, ok := specKind[n]
+				if !ok {
+					canonical = false
+					break
+				}
+				switch n {
+				case "raceop":
+					declared["racegor"] = true
+				case "raceprev":
+					declared["racegor7"] = true
+				case "racegor", "racegor7":
+					if !declared[n] {
+						canonical = false // a creation section for an undeclared goroutine: an error by C08, not a grammar matter
+					}
+				}
+				kinds = append(kinds, sk)
+			}
+			if canonical {
+				consumed := 0
+				for consumed < len(steps) && steps[consumed].Processed && !steps[consumed].Panic {
+					consumed++
+				}
+				var st scanStep
+				if consumed < len(steps) {
+					st = steps[consumed]
+				}
+				seqCopy := append([]string{}, seq...)
+				nsteps := len(steps)
+				pool.Send(map[string]interface{}{"op": "munch", "kinds": kinds[:nsteps]}, func(raw json.RawMessage) {
+					res.Trace()
+					var rep struct {
+						N        int    `json:"n"`
+						State    string `json:"state"`
+						CleanEnd bool   `json:"cleanEnd"`
+					}
+					json.Unmarshal(raw, &rep)
+					res.Count("grammar-oracle")
+					if rep.N != consumed {
+						res.Violation(Finding{Stream: "grammar", What: fmt.Sprintf("line kinds %v: the scanner consumed %d lines, the documented grammar reads %d (automaton state %s)", seqCopy, consumed, rep.N, rep.State), Op: map[string]interface{}{"kinds": seqCopy}})
+						return
+					}
+					if consumed < nsteps && !strings.Contains(rep.State, "r1") && !strings.Contains(rep.State, "start") {
+						// the line that cannot continue the dump: clean end exactly in accepting positions
+						clean := st.Err == "" && st.State == 1
+						if clean != rep.CleanEnd {
+							res.Violation(Finding{Stream: "grammar", What: fmt.Sprintf("line kinds %v: line %d cannot continue the dump; scanner: err=%q state=%d, grammar: clean end allowed=%v (automaton state %s)", seqCopy, consumed, st.Err, st.State, rep.CleanEnd, rep.State), Op: map[string]interface{}{"kinds": seqCopy}})
+						}
+					}
+				})
+			}
 		}
 		last := steps[len(steps)-1]
 		if last.Panic {
 			res.Violation(Finding{Stream: "scanline", What: fmt.Sprintf("scan panicked on the line-kind sequence %v", seq), Op: map[string]interface{}{"kinds": seq}})
 		}
 		res.Count(fmt.Sprintf("final-state:%d", last.State))
-	})
+	}
+	runKindSequences(res, pool, k, visit)
+	// longer sequences: random productions of the two grammars (written here from
+	// the documented format, independently of the Lean automaton), with 0..2 kinds
+	// inserted, deleted or replaced
+	for i := 0; i < countN(res.Tier, 3000, 100000); i++ {
+		seq := genKindSeq(r)
+		lines := make([]string, len(seq))
+		for j, n := range seq {
+			lines[j] = kindLines[n]
+		}
+		steps := lowScanLines(res, pool, lines)
+		// scan() keeps being called after an error only by this probe; the loop of
+		// ScanSnapshot stops at the first unprocessed line, so cut the steps there
+		for j := range steps {
+			if !steps[j].Processed {
+				steps = steps[:j+1]
+				break
+			}
+		}
+		res.Eval("gseq:"+strings.Join(seq, ","), true)
+		res.Count("generated-kind-sequences")
+		visit(seq[:len(steps)], steps)
+	}
 	n := countN(res.Tier, 800, 30000)
 	resumeSched = func(k int) []int { return genSched(r, k) }
 	defer func() { resumeSched = nil }()
@@ -690,4 +775,63 @@ func runC11(prop string, res *Result, pool *DrvPool, r *Rng) {
 			res.Sample(map[string]interface{}{"stream": clip(input), "reads": rd.Reads})
 		}
 	}
+}
+
+// genKindSeq draws a production of the dump grammar or of the race grammar as
+// a sequence of kindLines names, then mutates it a little.
+func genKindSeq(r *Rng) []string {
+	var seq []string
+	frames := func(fn, file string) {
+		for n := 1 + r.Intn(3); n > 0; n-- {
+			seq = append(seq, fn, file)
+		}
+	}
+	if r.Chance(2, 3) {
+		for g := 1 + r.Intn(3); g > 0; g-- {
+			seq = append(seq, []string{"header", "header2"}[r.Intn(2)])
+			if r.Chance(1, 6) {
+				seq = append(seq, "unavail")
+			} else {
+				frames("func", "file")
+				if r.Chance(1, 4) {
+					seq = append(seq, "elided", "func", "file")
+				}
+			}
+			if r.Chance(1, 2) {
+				seq = append(seq, "created", "file")
+			}
+			if g > 1 || r.Bool() {
+				seq = append(seq, "blank")
+			}
+		}
+		seq = append(seq, "junk")
+	} else {
+		seq = append(seq, "sep", "warn", "raceop")
+		frames("racefunc", "racefile")
+		prev := r.Bool()
+		if prev {
+			seq = append(seq, "blank", "raceprev")
+			frames("racefunc", "racefile")
+		}
+		seq = append(seq, "blank", "racegor")
+		frames("racefunc", "racefile")
+		if prev && r.Bool() {
+			seq = append(seq, "blank", "racegor7")
+			frames("racefunc", "racefile")
+		}
+		seq = append(seq, "sep", "junk")
+	}
+	names := []string{"header", "func", "file", "created", "blank", "elided", "unavail", "sep", "warn", "raceop", "raceprev", "racegor", "racefunc", "racefile", "junk"}
+	for m := r.Intn(3); m > 0 && len(seq) > 1; m-- {
+		i := 1 + r.Intn(len(seq)-1)
+		switch r.Intn(3) {
+		case 0:
+			seq = append(seq[:i], seq[i+1:]...)
+		case 1:
+			seq = append(seq[:i], append([]string{names[r.Intn(len(names))]}, seq[i:]...)...)
+		default:
+			seq[i] = names[r.Intn(len(names))]
+		}
+	}
+	return seq
 }
